@@ -88,12 +88,13 @@ func bulkOID(c, j int) oid.ID {
 	return oid.ID(sha256.Sum256([]byte(fmt.Sprintf("bulk-%d-%d", c, j))))
 }
 
-// bulkTarget: every 7th association targets a stored regular bulk object, the rest absent IDs (pairs share one).
+// bulkTarget: every 7th association targets a stored regular bulk object, the rest absent IDs; targets are
+// never shared, so every bulk object is accepted (a lock and a tombstone of one target refuse each other).
 func bulkTarget(c, j int) oid.ID {
 	if j%7 == 0 {
 		return bulkRegOID(c, j/7)
 	}
-	return oid.ID(sha256.Sum256([]byte(fmt.Sprintf("bulk-target-%d-%d", c, j/2))))
+	return oid.ID(sha256.Sum256([]byte(fmt.Sprintf("bulk-target-%d-%d", c, j))))
 }
 
 func bulkRegOID(c, j int) oid.ID {
